@@ -128,20 +128,23 @@ class Harness:
                     meth = pool.imap if call["ordered"] else pool.imap_unordered
                     got = 0
                     gen_obj = meth(data_of(c, call), call["chunk"])
-                    for y in gen_obj:
+                    # stop_at: the consumer stops after that many results and closes the generator - an early stop (abandon_after,
+                    # growth leg X02) or "zipped": exactly as many results as elements are taken and StopIteration is never asked for
+                    stop_at = call["n"] if call.get("zipped") else call.get("abandon_after")
+                    for y in (gen_obj if stop_at != 0 else ()):
                         if y == NONE_MARK and call.get("nones") and call["ordered"] and got % 2 == 1:
                             cc, ii = c, got         # the result of a None element: identified by its position (ordered calls)
                         else:
                             cc, ii = decode(y)
                         got += 1
                         w.event(op="yield", c=cc, i=ii)
-                        if call.get("abandon_after") == got:
+                        if stop_at == got:
                             break
-                    if call.get("abandon_after") is not None and got == call["abandon_after"] and got < call["n"]:
-                        # the consumer stops early: the generator is closed (what `break` + garbage collection do)
+                    if stop_at is not None:
                         gen_obj.close()
-                        w.event(op="abandon", c=c, got=got)
-                        continue
+                        if got < call["n"]:
+                            w.event(op="abandon", c=c, got=got)
+                            continue
                     w.event(op="call_end")
                     if scen.get("uar") == "between":
                         pool.until_all_ready()
